@@ -172,3 +172,44 @@ def head_call(t):
             return norm(t[1])
         return None
     return None
+
+
+def subst_params(t, args):
+    """Replace ('param', i) by args[i-1] everywhere in a term."""
+    if isinstance(t, tuple):
+        if len(t) == 2 and t[0] == "param" and isinstance(t[1], int) and 1 <= t[1] <= len(args):
+            return args[t[1] - 1]
+        return tuple(subst_params(x, args) for x in t)
+    if isinstance(t, list):
+        return [subst_params(x, args) for x in t]
+    return t
+
+
+def inline_local_call(W, bv, t, depth=3):
+    """If the value term `t` (traced in body `bv`) is the result of a call to a local, synchronous, non-trait
+    function, replace it by the callee's return-value term with the actual arguments substituted (a helper
+    extracted from an expression does not change what the expression computes).  Terms that are not such a
+    call are returned unchanged.  Block ids inside the inlined part refer to the callee."""
+    from .core import BV
+    for _ in range(depth):
+        x = t
+        while x[0] in ("ref", "deref"):
+            x = x[1]
+        if x[0] != "call" or len(x) < 4 or not isinstance(x[3], int) or x[3] >= len(bv.blocks):
+            return t
+        term = bv.blocks[x[3]]["t"]
+        if term.get("k") != "call" or term.get("callee") != x[1] or term.get("trait"):
+            return t
+        rid = term.get("resolved_id") or term.get("def_id") or term.get("id")
+        cb = W.by_id.get(rid) if rid else None
+        if cb is None:
+            cands = [b for b in W.by_id.values() if b.get("kind") == "fn" and (b["name"] == x[1] or b["name"].endswith("::" + x[1]) or x[1].endswith(b["name"]))]
+            cb = cands[0] if len(cands) == 1 else None
+        if cb is None or cb.get("kind") != "fn":
+            return t
+        cv = BV.of(cb)
+        if cv.argc != len(x[2]):
+            return t
+        t = subst_params(cv.trace_local(0), list(x[2]))
+        bv = cv
+    return t
